@@ -599,7 +599,12 @@ func init() {
 			res.Key = fmt.Sprintf("mode%d %s", mode, s.Key())
 			res.NonTrivial = true
 			reps := tierReps(c.Tier, 5, 20)
+			mixIn := r.Intn(2) == 0
 			prep := func(in *Inst) {
+				if mixIn {
+					// the caller spells the names of its values in any casing
+					in.MixCase = r
+				}
 				if !onceHistory {
 					return
 				}
@@ -854,8 +859,13 @@ func runC07Multi(c *CaseCtx, r *rand.Rand, names []string) (res CaseResult) {
 	res.Key = fmt.Sprintf("mode%d %s", mode, s.Key())
 	res.NonTrivial = true
 	reps := tierReps(c.Tier, 5, 20)
-	outs, _ := runScenario(c, s, r, reps, &res, func(in *Inst, o *Outcome) {
-		det := map[string]interface{}{"scenario": s.String(), "mode": mode, "class": o.Class, "err": firstLine(errStr(o.Err)), "events": eventsStr(o.Events)}
+	mixIn := r.Intn(2) == 0
+	outs, _ := runScenarioX(c, s, r, reps, &res, func(in *Inst) {
+		if mixIn {
+			in.MixCase = r
+		}
+	}, func(in *Inst, o *Outcome) {
+		det := map[string]interface{}{"scenario": s.String(), "mode": mode, "class": o.Class, "err": firstLine(errStr(o.Err)), "events": eventsStr(o.Events), "input_names_in_mixed_case": mixIn}
 		if o.Class != ClsOK {
 			res.violate("C07", "not-ok", "affinity scenario did not succeed: "+o.Class, det)
 			return
